@@ -289,7 +289,15 @@ func (c *Client) Resume() error {
 	// for example.
 	if c.PostResumeHook != nil {
 		err = c.PostResumeHook()
+		if err != nil {
+			return err
+		}
 	}
+
+	// As in Connect: the new connection needs its own keepalive and receiver go routines
+	keepaliveQuit := make(chan struct{})
+	go keepalive(c.transport, c.config.KeepaliveInterval, keepaliveQuit)
+	go c.recv(keepaliveQuit)
 	return err
 }
 
